@@ -4,10 +4,10 @@ package main
 
 import (
 	"fmt"
-	"regexp"
-	"strings"
 	"go/types"
 	"math/big"
+	"regexp"
+	"strings"
 )
 
 type CompKind int
